@@ -14,6 +14,26 @@ func dump() int {
 		fmt.Println(err)
 		return 2
 	}
+	if name := os.Getenv("TRCHECK_IDUMP"); name != "" {
+		f := p.Func(name)
+		if f == nil {
+			fmt.Println("no such function", name)
+			return 2
+		}
+		for _, ip := range InlinedPaths(p, f, inlineOpts{pkg: core.FuncPkg(f), stop: hasLoop}) {
+			fmt.Printf("  path %s\n", ip.Desc)
+			for _, a := range ip.Atoms {
+				fmt.Printf("      %s\n", a)
+			}
+			for _, e := range ip.Events {
+				fmt.Printf("      ! %s %s %s locked=%v elems=%v val=%v args=%v\n", e.Kind, e.Target, e.Callee, e.Locked, e.Elems, e.Val, e.Args)
+			}
+			for i, r := range ip.Results {
+				fmt.Printf("      => #%d = %s\n", i, r)
+			}
+		}
+		return 0
+	}
 	if name := os.Getenv("TRCHECK_DUMP"); name != "" {
 		f := p.Func(name)
 		if f == nil {
